@@ -1,6 +1,7 @@
 import Gallia.Lib.Proto
 import Gallia.Model.Server
 import Gallia.Spec.IsoDefault
+import Gallia.Model.VEcuHist
 open Gallia Gallia.Proto Gallia.Server Gallia.IsoDefault
 
 /-
@@ -16,6 +17,12 @@ open Gallia Gallia.Proto Gallia.Server Gallia.IsoDefault
     ->  `ok <session> <level> <seed memory> <reply hex|none> hc=<0|1> iso=<...>` | `crash <kind> hc=0 iso=-`
         hc: the model reached respond_after_default; iso: the specification's verdict (all switches on,
         non-empty request, active session offered), `-` otherwise
+    creq <session> <level|none> <none|t:seedhex> <lastActive> <mask> <start> <stop> <pduhex> <bools> <byte> <paylen> <payhex> <dtccount> <dtcs>
+        the CONCRETE server (`VEcu.vecuHandleSE`: rule chain + typed handlers of RandomUDSServer + update_state; the raw
+        bit computed by C01's parser model, no handler record): state and `last_time_active` before the request, the two
+        clock reads of handle_request (all in ticks of 0.25 s), request bytes, the recorded oracle of the handler call
+        (fields as in Driver/C14.lean)
+    ->  `ok <session> <level> <seed memory> <reply hex|none> la=<last_time_active>` | `crash <kind> <state> la=<...>`
 -/
 
 structure St where
@@ -124,6 +131,39 @@ def doReq (s : St) (mask idle raw hx hd : String) : St × String :=
       ({ s with st := ts'.st }, s!"crash {match c with | .assertion => "assertion" | .index => "index"} {showState ts'.st} hc=0 iso={iso}")
   | _, _, _ => (s, "bad-op")
 
+def parseBools (s : String) : Option (List Bool) :=
+  if s == "-" then some [] else
+  s.toList.mapM (fun c => if c == '1' then some true else if c == '0' then some false else none)
+
+def parseDtc (s : String) : Option (Fin 16777216 × UInt8) :=
+  match s.splitOn ":" with
+  | [a, b] => do
+    let d ← a.toNat?
+    let v ← b.toNat?
+    if h : d < 16777216 then
+      if v < 256 then pure (⟨d, h⟩, UInt8.ofNat v) else none
+    else none
+  | _ => none
+
+def parseDtcs (s : String) : Option (List (Fin 16777216 × UInt8)) :=
+  if s == "-" then some [] else (s.splitOn ",").mapM parseDtc
+
+def parseOrc (bools byte paylen payhex dtccount dtcs : String) : Option VEcu.Orc := do
+  let bs ← parseBools bools
+  let b ← byte.toNat?
+  if b ≥ 256 then none
+  let pl ← paylen.toNat?
+  let pay ← parseHex payhex
+  let dc ← dtccount.toNat?
+  let ds ← parseDtcs dtcs
+  pure { bools := bs, byte := UInt8.ofNat b, payLen := pl, payload := pay, dtcCount := dc, dtcs := ds }
+
+def doCReq (s : St) (st : SrvState) (la : Nat) (b : Behavior) (start stop : Nat) (pdu : Bytes) (o : VEcu.Orc) : String :=
+  match VEcu.vecuHandleSE b s.model ⟨st, la⟩ ⟨start, stop, pdu, o⟩ with
+  | (ts', .ok _ reply) => s!"ok {showState ts'.st} {showReply reply} la={ts'.lastActive}"
+  | (ts', .crash c) =>
+    s!"crash {match c with | .assertion => "assertion" | .index => "index"} {showState ts'.st} la={ts'.lastActive}"
+
 def step (s : St) (line : String) : St × String :=
   match words line with
   | ["model", spec] => match parseModel spec with
@@ -138,6 +178,12 @@ def step (s : St) (line : String) : St × String :=
     match a.toNat?, parseLevel b, parseSeed c with
     | some sess, some lv, some sd => doReq { s with st := ⟨sess, lv, sd⟩ } mask idle raw hx hd
     | _, _, _ => (s, "bad-op")
+  | ["creq", a, b, c, la, mask, start, stop, hx, bools, byte, paylen, payhex, dtccount, dtcs] =>
+    match a.toNat?, parseLevel b, parseSeed c, la.toNat?, parseMask mask, start.toNat?, stop.toNat?, parseHex hx,
+      parseOrc bools byte paylen payhex dtccount dtcs with
+    | some sess, some lv, some sd, some la, some bh, some t0, some t1, some pdu, some o =>
+      (s, doCReq s ⟨sess, lv, sd⟩ la bh t0 t1 pdu o)
+    | _, _, _, _, _, _, _, _, _ => (s, "bad-op")
   | _ => (s, "bad-op")
 
 def main : IO Unit := loopState ({} : St) step
